@@ -307,6 +307,177 @@ var codeNum = map[string]int{"OK": 0, "Canceled": 1, "Unknown": 2, "InvalidArgum
 	"NotFound": 5, "AlreadyExists": 6, "PermissionDenied": 7, "ResourceExhausted": 8, "FailedPrecondition": 9,
 	"Aborted": 10, "OutOfRange": 11, "Unimplemented": 12, "Internal": 13, "Unavailable": 14, "DataLoss": 15, "Unauthenticated": 16}
 
+// skeleton: the synchronisation skeleton of a method in source order - every call, channel
+// operation, defer and go statement whose operand is reached through the method's receiver
+// (s.currentWindow.Load, st.ch.removeStream, close(st.doneSignal), <-s.ctx.Done(), ...).
+// The step-level Coq models (SenderAtomic, CliFinish, Waits, Tables) assume these orders.
+func exprPath(e ast.Expr) string {
+	switch x := e.(type) {
+	case *ast.Ident:
+		return x.Name
+	case *ast.SelectorExpr:
+		if b := exprPath(x.X); b != "" {
+			return b + "." + x.Sel.Name
+		}
+	case *ast.CallExpr:
+		if b := exprPath(x.Fun); b != "" {
+			return b + "()"
+		}
+	case *ast.ParenExpr:
+		return exprPath(x.X)
+	case *ast.StarExpr:
+		return exprPath(x.X)
+	case *ast.IndexExpr:
+		return exprPath(x.X)
+	}
+	return ""
+}
+
+func skeleton(fn *ast.FuncDecl) []string {
+	if fn == nil || fn.Body == nil || fn.Recv == nil || len(fn.Recv.List) == 0 || len(fn.Recv.List[0].Names) == 0 {
+		return nil
+	}
+	recv := fn.Recv.List[0].Names[0].Name
+	rooted := func(p string) (string, bool) {
+		if strings.HasPrefix(p, recv+".") {
+			return p[len(recv)+1:], true
+		}
+		return "", false
+	}
+	var out []string
+	var walk func(n ast.Node, inDefaultSelect bool)
+	callTok := func(c *ast.CallExpr) string {
+		if id, ok := c.Fun.(*ast.Ident); ok && id.Name == "close" && len(c.Args) == 1 {
+			if p, ok := rooted(exprPath(c.Args[0])); ok {
+				return "close " + p
+			}
+			return ""
+		}
+		if p, ok := rooted(exprPath(c.Fun)); ok {
+			return "call " + p
+		}
+		return ""
+	}
+	walk = func(n ast.Node, inDefaultSelect bool) {
+		switch x := n.(type) {
+		case nil:
+			return
+		case *ast.DeferStmt:
+			if t := callTok(x.Call); t != "" {
+				out = append(out, "defer "+t)
+			} else if _, ok := x.Call.Fun.(*ast.FuncLit); ok {
+				out = append(out, "defer func")
+			}
+			return
+		case *ast.GoStmt:
+			if t := callTok(x.Call); t != "" {
+				out = append(out, "go "+t)
+			} else {
+				out = append(out, "go func")
+			}
+			return
+		case *ast.FuncLit:
+			return
+		case *ast.SelectStmt:
+			hasDefault := false
+			for _, c := range x.Body.List {
+				if c.(*ast.CommClause).Comm == nil {
+					hasDefault = true
+				}
+			}
+			out = append(out, "select")
+			for _, c := range x.Body.List {
+				cc := c.(*ast.CommClause)
+				walk(cc.Comm, hasDefault)
+				for _, st := range cc.Body {
+					walk(st, false)
+				}
+			}
+			out = append(out, "end")
+			return
+		case *ast.AssignStmt:
+			for _, r := range x.Rhs {
+				walk(r, false)
+			}
+			for _, l := range x.Lhs {
+				if p, ok := rooted(exprPath(l)); ok {
+					out = append(out, "set "+p)
+				}
+			}
+			return
+		case *ast.IncDecStmt:
+			if p, ok := rooted(exprPath(x.X)); ok {
+				out = append(out, "set "+p)
+			}
+			return
+		case *ast.SendStmt:
+			if p, ok := rooted(exprPath(x.Chan)); ok {
+				if inDefaultSelect {
+					out = append(out, "trysend "+p)
+				} else {
+					out = append(out, "send "+p)
+				}
+			}
+			return
+		case *ast.UnaryExpr:
+			if x.Op == token.ARROW {
+				if p, ok := rooted(exprPath(x.X)); ok {
+					out = append(out, "recv "+p)
+				}
+				return
+			}
+		case *ast.CallExpr:
+			for _, a := range x.Args {
+				walk(a, false)
+			}
+			if t := callTok(x); t != "" {
+				out = append(out, t)
+			}
+			// the receiver chain itself may contain calls (s.ctx.Done()) - already in the path
+			return
+		}
+		// generic descent in source order
+		ast.Inspect(n, func(m ast.Node) bool {
+			if m == n || m == nil {
+				return true
+			}
+			switch m.(type) {
+			case *ast.DeferStmt, *ast.GoStmt, *ast.FuncLit, *ast.SelectStmt, *ast.SendStmt, *ast.UnaryExpr, *ast.CallExpr, *ast.AssignStmt, *ast.IncDecStmt:
+				walk(m, false)
+				return false
+			}
+			return true
+		})
+	}
+	walk(fn.Body, false)
+	var clean []string
+	for _, t := range out {
+		if strings.Contains(t, "verif") {
+			continue
+		}
+		clean = append(clean, t)
+	}
+	return clean
+}
+
+func coqStrList(l []string) string {
+	var q []string
+	for _, x := range l {
+		q = append(q, "\""+x+"\"")
+	}
+	return "[" + strings.Join(q, "; ") + "]"
+}
+
+var skeletonFuncs = []string{
+	"defaultSender.send", "defaultSender.updateWindow",
+	"tunnelClientStream.finishStream", "tunnelServerStream.finishStream", "tunnelServerStream.halfClose",
+	"tunnelChannel.newStream", "tunnelChannel.close", "tunnelClientStream.cancelStream",
+	"defaultReceiver.accept", "defaultReceiver.dequeue", "defaultReceiver.close", "defaultReceiver.cancel",
+	"noFlowControlReceiver.accept", "noFlowControlReceiver.close", "noFlowControlReceiver.cancel",
+	"tunnelChannel.allocateStream", "tunnelChannel.removeStream", "tunnelServer.removeStream", "tunnelClientStream.acceptServerFrame",
+	"reverseChannels.add", "reverseChannels.remove",
+}
+
 func coqBytes(s string) string {
 	var b []string
 	for i := 0; i < len(s); i++ {
@@ -372,6 +543,12 @@ func main() {
 	fmt.Fprintf(&b, "Definition create_rejection_codes : list N := [%s].\n", strings.Join(rc, "; "))
 	if len(missing) > 0 {
 		fmt.Fprintf(&b, "(* NOT FOUND in the source: %s *)\n", strings.Join(missing, ", "))
+	}
+	b.WriteString("\n(* synchronisation skeletons (calls / channel operations / defer / go through the receiver, in source order) *)\n")
+	b.WriteString("From Coq Require Import String.\nLocal Open Scope string_scope.\n")
+	for _, fn := range skeletonFuncs {
+		name := "skel_" + strings.ReplaceAll(fn, ".", "_")
+		fmt.Fprintf(&b, "Definition %s : list string := %s.\n", name, coqStrList(skeleton(p.funcs[fn])))
 	}
 	old, _ := os.ReadFile(os.Args[2])
 	if string(old) != b.String() {
